@@ -61,7 +61,11 @@ func TestCheck(t *testing.T) {
 	}
 	for _, probeOn := range []bool{true, false} {
 		for _, proto := range []string{"h1", "h2"} {
-			for _, method := range []string{"GET", "HEAD", "POST"} {
+			methods := []string{"GET", "HEAD", "POST"}
+			if ev.Thorough() {
+				methods = append(methods, "PUT", "DELETE", "OPTIONS", "PATCH")
+			}
+			for _, method := range methods {
 				job++
 				if job%of != shard {
 					continue
@@ -106,6 +110,7 @@ func runGroup(t *testing.T, rep *ev.Report, probeOn bool, proto, method string, 
 		}
 		if proto == "h2" {
 			cl.StartH2()
+			cl.Write(h2wire.WindowUpdate(0, 1<<30)) // the client of this check never runs out of connection window
 			synctest.Wait()
 		}
 		col := bubble.NewH2Collector()
@@ -143,7 +148,11 @@ func runGroup(t *testing.T, rep *ev.Report, probeOn bool, proto, method string, 
 			for oi, other := range [][][2]string{nil, {{"X-UA", "kube-probe/1.26"}}, {{"X-User-Agent", "kube-probe/1.26"}, {"Referer", "kube-probe/1.26"}},
 				{{"Range", "bytes=0-0"}, {"If-None-Match", "*"}}, {{"Range", "bytes=100-"}, {"If-Match", "\"x\""}, {"If-Modified-Since", "Mon, 02 Jan 2006 15:04:05 GMT"}},
 				nil /* oi == 5: a repeated field around User-Agent, see below */} {
-				for _, path := range []string{"/", "/healthz?x=1"} {
+				paths := []string{"/", "/healthz?x=1"}
+				if ev.Thorough() {
+					paths = append(paths, "/kube-probe/1.26", "/a/b/../c?ua=kube-probe/1.26", "/"+strings.Repeat("p", 2000))
+				}
+				for _, path := range paths {
 					n++
 					var lines [][2]string
 					if oi == 5 {
@@ -156,7 +165,7 @@ func runGroup(t *testing.T, rep *ev.Report, probeOn bool, proto, method string, 
 						lines = append(lines, other...)
 					}
 					rq := bubble.Req{Method: method, Path: path, Host: "localhost", Lines: lines}
-					if method == "POST" {
+					if method == "POST" || method == "PUT" || method == "PATCH" {
 						rq.Body = []byte("payload")
 					}
 					before := rec.Count()
